@@ -78,6 +78,7 @@ var VBTuples = [][4]float32{
 	{-10, 5, 30, 25},
 	{0.125, 0.125, 0.75, 1.25},
 	{5, 5, 5, 5},        // degenerate min == max
+	{0, 0, 0, 0},        // degenerate at the origin: every number is the zero value
 	{-32, 7, -32, 9},    // degenerate in x only
 	{24, -24, -24, 24},  // inverted x
 	{-24, 24, 24, -24},  // inverted y
